@@ -559,8 +559,12 @@ pub fn minimise(engine: &dyn Engine, t: &Trace, invariant: &str) -> Result<(Trac
     let mut cur = t.clone();
     let fails = |cand: &Trace, tests: &mut u64| -> Result<bool, HarnessError> {
         *tests += 1;
-        let r = exec_child(engine, cand, "min")?;
-        Ok(matches!(r, Some(v) if v.invariant == invariant))
+        // a candidate that is not a well-formed trace any more (e.g. a precondition-establishing
+        // step was deleted) is simply not a reproduction
+        match exec_child(engine, cand, "min") {
+            Ok(r) => Ok(matches!(r, Some(v) if v.invariant == invariant)),
+            Err(_) => Ok(false),
+        }
     };
     let budget = 600u64;
     // ddmin over deletable steps
